@@ -102,6 +102,28 @@ def needs_parens_right(child, rule):
     return True
 
 
+def toplevel_and(txt):
+    """a conjunction `and` outside parentheses / brackets (an `and` that closes a nested `between` is not one)"""
+    depth = 0
+    open_betweens = 0
+    i = 0
+    while i < len(txt):
+        ch = txt[i]
+        if ch in '([':
+            depth += 1
+        elif ch in ')]':
+            depth -= 1
+        elif depth == 0 and txt.startswith(' between ', i):
+            open_betweens += 1
+        elif depth == 0 and txt.startswith(' and ', i):
+            if open_betweens:
+                open_betweens -= 1
+            else:
+                return True
+        i += 1
+    return False
+
+
 def render(t, mode, drop=None, path=()):
     """mode 'full': parentheses around every operand; 'min': only the needed ones. drop = path of one operand whose needed
     parentheses are left out. Returns (text, list of operand paths that needed parentheses)."""
@@ -118,6 +140,9 @@ def render(t, mode, drop=None, path=()):
         if mode == 'full':
             return '(' + txt + ')'
         need = needs_parens_left(c, ctx_prec) if side == 'L' else (needs_parens_right(c, ctx_prec) if side == 'R' else False)
+        if side == 'B':
+            # lower bound of `between`: the first `and` outside parentheses / brackets ends it, so a bound that shows one needs parentheses
+            need = toplevel_and(txt)
         if need:
             needed.append(path + (k,))
             if drop == path + (k,):
@@ -138,7 +163,7 @@ def render(t, mode, drop=None, path=()):
     if t.op == 'filter':
         return operand(0, 'L', PREC['LEFT_BRACKET']) + '[' + operand(1, 'N', None) + ']', needed
     if t.op == 'between':
-        return operand(0, 'L', PREC['BETWEEN']) + ' between ' + operand(1, 'N', None) + ' and ' + operand(2, 'R', PREC['BETWEEN_AND']), needed
+        return operand(0, 'L', PREC['BETWEEN']) + ' between ' + operand(1, 'B', None) + ' and ' + operand(2, 'R', PREC['BETWEEN_AND']), needed
     raise ValueError(t.op)
 
 
@@ -158,7 +183,7 @@ def positions(op):
     if op == 'filter':
         return [0]          # the index sits between brackets: no precedence question
     if op == 'between':
-        return [0, 2]       # the lower bound sits between BETWEEN and BETWEEN_AND: no conflict (and `and` there is lexer business)
+        return [0, 1, 2]    # the lower bound sits between BETWEEN and BETWEEN_AND: no precedence conflict, but an `and` or a nested `between` in it must stay inside its parentheses
     return list(range(arity(op)))
 
 
